@@ -134,7 +134,13 @@ def parse_kani(out):
 
 
 def slot_dir(slot):
-    return os.path.join(BUILD, f"kani-w{slot}")
+    # VERIF_SLOT_BASE: development only - lets several ./check processes run side by side
+    # without sharing a Kani target dir (slots 0..5 are warmed by setup.sh)
+    base = int(os.environ.get("VERIF_SLOT_BASE", "0") or 0)
+    d = os.path.join(BUILD, f"kani-w{slot + base}")
+    if base and not os.path.isdir(d) and os.path.isdir(os.path.join(BUILD, "kani-w0")):
+        shutil.copytree(os.path.join(BUILD, "kani-w0"), d, symlinks=True)
+    return d
 
 
 def clean_kani_out(target):
@@ -207,7 +213,7 @@ def run_one(h, slot, tier_cap, mem_kb):
     clean_kani_out(target)
     stub = bool(h.get("stubbing"))
     uw, text = resolve_unwindset(h, target, stub)
-    cbmc_args = list(h.get("cbmc_args") or []) + uw
+    cbmc_args = list(h.get("cbmc_args") or []) + os.environ.get("VERIF_EXTRA_CBMC", "").split() + uw
     tmo = h.get("timeout", tier_cap)
     def build_cmd(playback):
         c = ["cargo", "kani", "--target-dir", target, "--exact", "--harness", h["qual"],
@@ -264,6 +270,12 @@ def run_one(h, slot, tier_cap, mem_kb):
         r["status"] = "TIMEOUT"
     if r["status"] == "FAILED" and not r["failed"]:
         r["status"] = "ERROR"  # CBMC died (status 1, out of memory, ...): never a verdict
+    if r["status"] == "FAILED" and any("not currently supported by Kani" in f or "unsupported" in f.lower()
+                                       for f in r["failed"]):
+        # the harness reaches a construct Kani does not model (a syscall, inline asm, ...): every
+        # other failed check on that path is an artefact of the placeholder, never a verdict
+        r["status"] = "ERROR"
+        r["tail"] = "unsupported construct reached: " + "; ".join(r["failed"][:3])
     m = re.search(r"size of program expression: (\d+) steps", out)
     r["steps"] = int(m.group(1)) if m else 0
     r["solver_s"] = round(sum(float(x) for x in re.findall(r"Runtime decision procedure: ([0-9.]+)s", out)), 2)
